@@ -18,6 +18,7 @@ func genC36Case(t *rapid.T) colCase {
 	if k := cfg.Sampler.Kind; k == "rulesfield" || k == "rulesdown" {
 		cfg.Sampler = samplerSpec{Kind: "keepall"}
 	}
+	cfg.TxDelayUs = rapid.SampledFrom([]int64{0, 0, 200, 5000, 60000}).Draw(t, "txdelay")
 	c := colCase{Cfg: cfg}
 	opGen := rapid.Custom(func(t *rapid.T) opSpec {
 		switch k := rapid.IntRange(0, 19).Draw(t, "opkind"); {
@@ -48,7 +49,25 @@ func judgeC36(c colCase, obs colObs) (res vkit.Result, nt bool) {
 		return
 	}
 	views := viewByTrace(c, obs)
-	nTraces, buffered := 0, 0
+	// spans that were accepted but still sat in a worker queue when Stop was called: the last
+	// N accepted spans of that worker and queue kind
+	queued := map[string]bool{}
+	for w, q := range obs.QueuedAtStop {
+		for kind, n := range map[string]int{"incoming": q[0], "peer": q[1]} {
+			for i := len(obs.Spans) - 1; i >= 0 && n > 0; i-- {
+				a := obs.Spans[i]
+				via := a.Via
+				if via == "" {
+					via = "incoming"
+				}
+				if a.Err == "" && obs.WorkerOf[a.TraceID] == w && via == kind {
+					queued[a.UID] = true
+					n--
+				}
+			}
+		}
+	}
+	nTraces, nProcessed, buffered := 0, 0, 0
 	atStop := map[string]bool{}
 	for _, id := range obs.BufferedAtStop {
 		atStop[id] = true
@@ -59,6 +78,12 @@ func judgeC36(c colCase, obs colObs) (res vkit.Result, nt bool) {
 			continue
 		}
 		nTraces++
+		for _, a := range v.Accepted {
+			if !queued[a.UID] {
+				nProcessed++
+				break
+			}
+		}
 		fw := map[string]int{}
 		for _, f := range v.Forwarded {
 			fw[f.UID]++
@@ -77,6 +102,8 @@ func judgeC36(c colCase, obs colObs) (res vkit.Result, nt bool) {
 					where := "decided-before-stop"
 					if stillBuffered {
 						where = "buffered-at-stop"
+					} else if queued[a.UID] {
+						where = "queued-at-stop"
 					}
 					res.Violate("C36/kept-trace-not-forwarded/"+where, "trace %s must be kept (%+v) but span %s was never forwarded; Stop at op %d (%v)", id, c.Cfg.Sampler, a.UID, obs.StopOp, obs.StopAt)
 					break
@@ -90,16 +117,22 @@ func judgeC36(c colCase, obs colObs) (res vkit.Result, nt bool) {
 		}
 	}
 	k, d := obs.Counters["trace_send_kept"], obs.Counters["trace_send_dropped"]
-	if int(k+d) < nTraces-len(atStop) || int(k+d) > nTraces {
-		res.Violate("C36/decision-count-mismatch", "%d traces had accepted spans, %d were still buffered at Stop, but %d kept + %d dropped decisions were counted", nTraces, len(atStop), k, d)
+	if int(k+d) < nProcessed-len(atStop) || int(k+d) > nTraces {
+		res.Violate("C36/decision-count-mismatch", "%d traces had accepted spans (%d of them had a span taken off the worker queue), %d were still buffered at Stop, but %d kept + %d dropped decisions were counted", nTraces, nProcessed, len(atStop), k, d)
 	} else if int(k+d) != nTraces {
 		res.Violate("C36/buffered-traces-not-decided", "%d traces had accepted spans, but only %d kept + %d dropped decisions were made by the time Stop returned", nTraces, k, d)
+	}
+	if len(queued) > 0 {
+		res.Class("spans-queued-at-stop")
 	}
 	if buffered > 0 {
 		nt = true
 		res.Class("buffered-at-stop")
 	}
 	res.Class(fmt.Sprintf("stop-after-%d-ops", min(obs.StopOp, 10)/5*5))
+	if c.Cfg.TxDelayUs > 0 {
+		res.Class("slow-upstream")
+	}
 	return
 }
 
